@@ -8,5 +8,6 @@ CONSTANTS
   CanFail = TRUE
   Oversized = "alone"
   AttachFirst = "always"
+  Remainder = "kept"
 INVARIANT PropertyKnown
 CHECK_DEADLOCK FALSE
